@@ -87,7 +87,7 @@ theorem rename_input_graph (x a b : String) (ti : TypeInfo) (p : Program)
     | inl h => exact h
     | inr h => rw [h] at hk; cases hk
   have H : SimHyp ti (ti.renameInput x a b) p (renameInput x a b p) id (renameInputIn x a b) (GIn x a b)
-      (SIn x a b) (fun _ _ v => v) id (fun c => pipeOKIn x b c = true) (IIn x b) (fun _ _ => True) (fun _ => True) := by
+      (SIn x a b) (fun _ _ v => v) id (fun c => pipeOKIn x b c = true) (IIn x b) (fun _ _ => True) (fun _ => True) (fun _ _ => true) := by
     refine { hfind1 := ?_, hfind0 := ?_, hrel := fun _ _ _ _ => trivial, hF := ?_, hcalls := ?_, hGid := ?_, hGdec := ?_, hfirst := ?_, hO0 := ?_,
              hOs := ?_, o0 := ?_, o0s := ?_, o1 := ?_, o2 := ?_, c5 := ?_, c6 := ?_, c7 := ?_ }
     · intro n d hd
@@ -106,6 +106,7 @@ theorem rename_input_graph (x a b : String) (ti : TypeInfo) (p : Program)
       split <;> split <;> simp
     · intro pipe hg
       have hparts := pipeOKIn_parts hg
+      rw [show (pipe.calls.filter (fun k => (fun (_ : Callable) (_ : String) => true) pipe k.id)) = pipe.calls from filter_true' _]
       unfold renameInputIn GIn
       by_cases hn : pipe.name = x
       · simp only [hn, if_true]
@@ -142,7 +143,9 @@ theorem rename_input_graph (x a b : String) (ti : TypeInfo) (p : Program)
       exact (hparts.2.2.2.2.2 k hkm (hdname ▸ hdn)).1
     · intros; trivial
     · -- c5
-      intro pipe self sib k d id hg hi _ hk hd
+      intro pipe self sib sib' k d id hg hi _ hag _ hk hd
+      have hs' := sibAgree_true hag
+      subst hs'
       have hparts := pipeOKIn_parts hg
       have hkm := (call_mem pipe id k hk).1
       have hdname := find_name p _ d hd
@@ -209,7 +212,9 @@ theorem rename_input_graph (x a b : String) (ti : TypeInfo) (p : Program)
           rw [this]
           simp [hdn]
     · -- c6
-      intro d ins sib hg hp hi _
+      intro d ins sib sib' hg hp hi _ hag
+      have hs' := sibAgree_true hag
+      subst hs'
       have hparts := pipeOKIn_parts hg
       have hOsib : Osib p (fun _ _ v => v) d sib = sib := by
         funext i; rfl
@@ -238,7 +243,9 @@ theorem rename_input_graph (x a b : String) (ti : TypeInfo) (p : Program)
         rw [hret, houtn, expandWild_noStar _ _ _ _ hparts.2.2.2.1, expandWild_noStar _ _ _ _ hparts.2.2.2.1]
         simp [SIn, hn]
     · -- c7
-      intro d ins sib hg hp hi _
+      intro d ins sib sib' hg hp hi _ hag
+      have hs' := sibAgree_true hag
+      subst hs'
       have hparts := pipeOKIn_parts hg
       have hOsib : Osib p (fun _ _ v => v) d sib = sib := by
         funext i; rfl
@@ -261,11 +268,11 @@ theorem rename_input_graph (x a b : String) (ti : TypeInfo) (p : Program)
     funext n
     simp only [nodeMap, renNodeIn, SIn, id, List.map_id]
     split <;> rfl
-  rw [← hmap]
+  rw [← deepGraphKeep_true ti p, ← hmap]
   apply sim_graph H
   · intro t ht
     have htop := by simpa [ht] using htopok
-    refine ⟨?_, ?_, htop, ?_⟩
+    refine ⟨?_, ?_, htop, ?_, rfl⟩
     · rw [hp']; simp [ht, GIn, topPipe, Ne.symm hx]
     · simp [GIn, topPipe, Ne.symm hx, renameInputIn, renameCallParam]
     · intro h; simp [topPipe] at h; exact absurd h hx
